@@ -13,7 +13,7 @@ import (
 const geojsonPath = "github.com/tidwall/geojson"
 
 func init() {
-	register(&Rule{ID: "R19.delta", Props: []string{"C19", "C14", "C02"}, Floor: 12,
+	register(&Rule{ID: "R19.delta", Props: []string{"C19", "C14", "C02", "C01"}, Floor: 12,
 		Text: "bookkeeping symmetry in internal/collection: the two removal sites (the prev != nil block of setFill, the body of Delete) and the insertion site (the tail of setFill) are abstracted into action sets (field, operation, operand, guard, measure); the two removal sites agree, removal is the exact inverse of insertion (Delete↔Insert/Set, --↔++, -=↔+= with the same guards and measures on the respective object), and every secondary field of Collection is covered",
 		Run:  ruleDelta})
 	register(&Rule{ID: "R19.who-writes", Props: []string{"C19"}, Floor: 8,
@@ -651,14 +651,13 @@ func ruleExactFilter(c *Ctx) {
 					}
 					// f.E is the predicate call, or `match = pred(...)` assignment condition, or ident bound to it
 					var pred *ast.CallExpr
-					ast.Inspect(f.E, func(y ast.Node) bool {
-						if cc, ok := y.(*ast.CallExpr); ok && pred == nil {
-							if g := callee(info, cc); g != nil && g.Name() == name && isGeoBinary(g) {
-								pred = cc
-							}
+					// the fact itself must be the predicate (facts are already decomposed over && / || / !):
+					// a predicate that is only one disjunct of the guard does not hold on the edge
+					if cc, ok := ast.Unparen(f.E).(*ast.CallExpr); ok {
+						if g := callee(info, cc); g != nil && g.Name() == name && isGeoBinary(g) {
+							pred = cc
 						}
-						return true
-					})
+					}
 					if pred == nil {
 						// if match = o.Geo().Within(obj); match { ... }: the init statement precedes the condition in the same block
 						if id, ok := ast.Unparen(f.E).(*ast.Ident); ok {
